@@ -63,6 +63,11 @@ def known_match(known, prop, signature):
 
 # reach probes that must be non-zero in a batch (otherwise the batch is not a pass)
 REQUIRED_PROBES = {
+    "C08": ["both_sides_present", "one_sided", "axle_partial_presence", "diff_equal_all_present", "diff_waits_for_data",
+            "teeth_ratio_observed"],
+    "C09": ["reconnect_same_pair", "connect_steals_both", "connect_steals_one", "disconnect_unlinked"],
+    "C13": ["relay_competing_commands", "newest_not_at_side1", "relayed_two_hops"],
+    "C20": ["actuator_sees_nothing", "pid_wrapper_fed", "pid_wrapper_drives_motor"],
     "C04": ["time_shift_twin", "scaling_twin", "present_after_reset", "recovery_checked"],
     "C05": ["err_then_2_present", "present_after_reset", "absent_deletion_twin", "recovery_checked"],
     "C10": ["time_shift_twin", "misdim_panic", "err_then_2_present"],
@@ -71,6 +76,11 @@ REQUIRED_PROBES = {
 }
 
 RULES = {
+    "device": ("each case is one seeded plan: an arena of real devices / wrappers / free terminals (header) and an op list "
+               "(connect, disconnect, set state / command with unique skewed timestamps, update one device, inner-object "
+               "faults) executed on the real rrtk device graph; every terminal is read after every op. A run is non-trivial "
+               "when it contains at least one connect; distinct = distinct hash of the sequence of (op kind, link-matching "
+               "class) over the run, counted with a set."),
     "node": ("each case is one seeded plan: a header (node kind, gains/window/units) and an op list "
              "(scripted leaf-sensor outcomes present/absent/E1/E2, update, extra reads, command/follow ops) "
              "executed on the real rrtk stream. A run is non-trivial when it contains at least one reset event or "
@@ -79,6 +89,13 @@ RULES = {
 }
 
 COMPONENTS = {
+    "device": {
+        "real": ["Terminal", "connect", "Terminal::disconnect", "Invert", "GearTrain (ratio, Quantity ratio, tooth list)",
+                 "Axle<0..8>", "Differential (4 trust modes)", "ActuatorWrapper", "GetterStateDeviceWrapper", "PIDWrapper",
+                 "CommandPID (inside PIDWrapper and as twin)", "ConstantGetter", "Datum operators used by devices"],
+        "stub": ["inner motors (Settable<TerminalData>/Settable<f32>, scripted accept/reject)", "inner encoder getter",
+                 "reference models (matching, projection, relay)"],
+    },
     "node": {
         "real": ["PIDControllerStream", "CommandPID", "EWMAStream<f32>", "EWMAStream<Quantity>",
                  "MovingAverageStream<f32>", "MovingAverageStream<Quantity>", "IntegralStream", "DerivativeStream",
@@ -195,6 +212,7 @@ def sim_batch(prop, tier, seed, world):
 
 SIM_PROPS = {
     "C04": "node", "C05": "node", "C10": "node", "C11": "node", "C12": "node",
+    "C08": "device", "C09": "device", "C13": "device", "C20": "device",
 }
 
 
